@@ -139,22 +139,41 @@ func (req *OnRequest) DoesHeaderValueMatch(headerName, headerValue string) bool 
 	return false
 }
 
-func (req *OnRequest) DoesQueryParamExist(paramName string) bool {
+// queryValues returns the query parameters of the request. When the URL as a
+// whole does not parse (e.g. a bare "%" in the path) the query string, which
+// HAProxy hands over on its own, is parsed by itself: the request still has
+// its query parameters.
+func (req *OnRequest) queryValues() (url.Values, bool) {
 	if err := req.init(); err != nil {
 		log.Error().Err(err).Msgf("failed to initialize request: %s", req.ID)
+		values, queryErr := url.ParseQuery(req.Query)
+		if queryErr != nil {
+			return nil, false
+		}
+		return values, true
+	}
+	return req.ParsedURL.Query(), true
+}
+
+func (req *OnRequest) DoesQueryParamExist(paramName string) bool {
+	values, valid := req.queryValues()
+	if !valid {
 		return false
 	}
-	_, found := req.ParsedURL.Query()[paramName]
+	_, found := values[paramName]
 	return found
 }
 
 func (req *OnRequest) DoesQueryParamValueMatch(paramName, paramValue string) bool {
-	queryExists := req.DoesQueryParamExist(paramName)
-	if !queryExists {
-		return queryExists
+	values, valid := req.queryValues()
+	if !valid {
+		return false
+	}
+	if _, found := values[paramName]; !found {
+		return false
 	}
 
-	return req.ParsedURL.Query().Get(paramName) == paramValue
+	return values.Get(paramName) == paramValue
 }
 
 func (req *OnRequest) GetSize() int {
